@@ -201,9 +201,18 @@ class Items:
     def __init__(self, path):
         with open(path) as f:
             d = json.load(f)
-        self.adts = d["adts"]
-        self.impls = d["impls"]
-        self.fns = d["fns"]
+        def norm(x):
+            if isinstance(x, str):
+                return x.replace("crate::", "json_syntax::")
+            if isinstance(x, list):
+                return [norm(y) for y in x]
+            if isinstance(x, dict):
+                return {k: norm(v) for k, v in x.items()}
+            return x
+
+        self.adts = norm(d["adts"])
+        self.impls = norm(d["impls"])
+        self.fns = norm(d["fns"])
         self.macros = d["macros"]
         self.features = d.get("features", [])
 
